@@ -200,6 +200,9 @@ class kLeastAbsErrors(pathmodel.AbstractPathModelDAG):
 
         self.k = k
         self.original_k = k
+        if not isinstance(self.k, int) or self.k <= 0:
+            utils.logger.error(f"{__name__}: k must be a positive integer, not {self.k}")
+            raise ValueError(f"k must be a positive integer, not {self.k}")
         self.solution_weights_superset = solution_weights_superset
         self.optimization_options = dict(optimization_options) if optimization_options else {}        
 
